@@ -382,4 +382,6 @@ package state
 //@   opt partial = 1
 //@   requires tracker != nil && tracker.txids != nil && mempool != nil && InvTx(mempool) && !held(mempool.mutex)
 //@   loop 0 invariant tracker.txids != nil && InvTx(mempool) && !held(mempool.mutex)
+//@   loop 0 invariant [C14] !transmitted(invRequest)
+//@   assert fills_unsent_message at call AddInvVect : [C14] !transmitted(invRequest)
 //@   ensures nothing_left_unsent afterloop 0 : [C14] result == nil ==> len(invRequest.InvList) == 0 || transmitted(invRequest)
